@@ -315,6 +315,7 @@ func (e *Exec) noteTermGen(t Term, gen int, sort string) {
 
 type snapshot struct {
 	nitems, nobl, nlog, nq, nidx int
+	nfresh                        int
 	declared                      map[string]bool
 	compInit                      map[string]Term
 	idxSeen                       map[string]bool
@@ -322,7 +323,7 @@ type snapshot struct {
 
 func (e *Exec) snapshot() *snapshot {
 	sn := &snapshot{nitems: len(e.items), nobl: len(e.obls), nlog: len(e.wlog), nq: len(e.intQuants), nidx: len(e.idxTerms),
-		declared: map[string]bool{}, compInit: map[string]Term{}, idxSeen: map[string]bool{}}
+		declared: map[string]bool{}, compInit: map[string]Term{}, idxSeen: map[string]bool{}, nfresh: e.nfresh}
 	for k := range e.declared {
 		sn.declared[k] = true
 	}
@@ -345,6 +346,11 @@ func (e *Exec) rollback(sn *snapshot) {
 		}
 	}
 	e.items = e.items[:sn.nitems]
+	// every symbol numbered since the snapshot is gone with the items: reuse the numbers, so that symbol
+	// names do not depend on whether a callee summary was computed here or found in the shared memo
+	if os.Getenv("GOVC_KEEP_COUNTER") == "" {
+		e.nfresh = sn.nfresh
+	}
 	e.obls = e.obls[:sn.nobl]
 	e.intQuants = e.intQuants[:sn.nq]
 	e.idxTerms = e.idxTerms[:sn.nidx]
@@ -354,7 +360,14 @@ func (e *Exec) rollback(sn *snapshot) {
 		init := newComps[k]
 		e.symAt[init] = len(e.items)
 		e.items = append(e.items, Item{Kind: ItemDecl, Sym: init, Text: fmt.Sprintf("(declare-const %s %s)", init, e.compSort[k])})
+		// exactly the facts e.comp asserts for a first use outside a dry run
+		savedPA, savedQ := e.pendingAlloc, e.inQuant
+		if a, ok := e.compInit[allocComp]; ok {
+			e.pendingAlloc = a
+		}
+		e.inQuant = 0
 		e.initCompFacts(k, e.compSort[k], init)
+		e.pendingAlloc, e.inQuant = savedPA, savedQ
 	}
 }
 
@@ -370,6 +383,19 @@ func (e *Exec) assumeForallInt(guard Term, body func(i Term) Term, pattern func(
 	q := e.define("Q", "Bool", fmt.Sprintf("(forall ((%s Int)) %s)", v, txt))
 	e.assume(Implies(guard, q), note)
 	e.registerIntQuant(q, func(t Term) Term { return body(t) }, true, false)
+}
+
+// assumeForallSort: like assumeForallInt for a variable of another sort (map keys).
+func (e *Exec) assumeForallSort(sort string, body func(k Term) Term, pattern func(k Term) Term, note string) {
+	e.nfresh++
+	v := fmt.Sprintf("kq%d", e.nfresh)
+	txt := body(v)
+	if pattern != nil {
+		txt = fmt.Sprintf("(! %s :pattern (%s))", txt, pattern(v))
+	}
+	q := e.define("Q", "Bool", fmt.Sprintf("(forall ((%s %s)) %s)", v, sort, txt))
+	e.assume(q, note)
+	e.registerQuant(q, func(t Term) Term { return body(t) }, true, false, sort)
 }
 
 // assumeKeyed: an assumption that is only useful for reasoning about symbol `key`.
@@ -405,13 +431,25 @@ func (e *Exec) comp(s *State, name, sort string) Term {
 	if a, ok := e.compInit[allocComp]; ok {
 		e.pendingAlloc = a
 	}
+	// closed facts about the new symbol: asserted even when the component is first met under a quantifier
+	savedQ := e.inQuant
+	e.inQuant = 0
 	e.initCompFacts(name, sort, init)
+	e.inQuant = savedQ
 	e.pendingAlloc = saved
 	return init
 }
 
 // facts that hold for every version of a component obtained by havoc/initialisation
 func (e *Exec) initCompFacts(name, sort string, sym Term) {
+	n0 := len(e.items)
+	defer func() {
+		if strings.HasSuffix(sym, "!0") {
+			for i := n0; i < len(e.items); i++ {
+				e.items[i].Init = true
+			}
+		}
+	}()
 	for _, g := range e.nonNilGlobals[name] {
 		e.assume(Not(Eq(Select(sym, g), "0")), "global initialised once to a non-nil value (checked on the SSA program)")
 	}
@@ -433,10 +471,12 @@ func (e *Exec) initCompFacts(name, sort string, sym Term) {
 			}
 		}
 	}
-	if ks, ok := e.refValued[name]; ok && e.pendingAlloc != "" {
+	if rv, ok := refValuedG.Load(name); ok && e.pendingAlloc != "" {
+		ks, tag := rv.(refValuedInfo).ks, rv.(refValuedInfo).tag
+		e.reg.useSort(ks)
 		// every reference stored in a map is an allocated one
 		e.declFun("rtype", []string{"Int"}, "Int")
-		e.assumeKeyed(sym, fmt.Sprintf("(forall ((rq Int) (kq %s)) (! (and (<= (select (select %s rq) kq) %s) (or (= (select (select %s rq) kq) 0) (= (rtype (select (select %s rq) kq)) %d))) :pattern ((select (select %s rq) kq))))", ks, sym, e.pendingAlloc, sym, sym, e.refValuedTag[name], sym), "references stored in maps are allocated and typed")
+		e.assumeKeyed(sym, fmt.Sprintf("(forall ((rq Int) (kq %s)) (! (and (<= (select (select %s rq) kq) %s) (or (= (select (select %s rq) kq) 0) (= (rtype (select (select %s rq) kq)) %d))) :pattern ((select (select %s rq) kq))))", ks, sym, e.pendingAlloc, sym, sym, tag, sym), "references stored in maps are allocated and typed")
 	}
 }
 
@@ -719,18 +759,19 @@ func (e *Exec) mapNames(m *types.Map) (dn, ds, vn, vs string) {
 	suffix := e.reg.typeId(m.Key()) + "_" + e.reg.typeId(m.Elem())
 	if isRefLike(m.Elem()) {
 		if _, isSig := unalias(m.Elem()).Underlying().(*types.Signature); !isSig {
-			if e.refValued == nil {
-				e.refValued = map[string]string{}
-			}
-			e.refValued["MV_"+suffix] = k
-			if e.refValuedTag == nil {
-				e.refValuedTag = map[string]int{}
-			}
-			e.refValuedTag["MV_"+suffix] = e.reg.tagOf(unalias(m.Elem()))
+			// process-wide: a component first met through a memoised callee summary gets the same facts
+			refValuedG.Store("MV_"+suffix, refValuedInfo{k, e.reg.tagOf(unalias(m.Elem()))})
 		}
 	}
 	return "MD_" + suffix, "(Array Int (Array " + k + " Bool))", "MV_" + suffix, "(Array Int (Array " + k + " " + v + "))"
 }
+type refValuedInfo struct {
+	ks  string
+	tag int
+}
+
+var refValuedG sync.Map // map-value components holding references -> key sort and element type tag
+
 func (e *Exec) mapLenName(m *types.Map) (string, string) {
 	return "ML_" + e.reg.typeId(m.Key()) + "_" + e.reg.typeId(m.Elem()), "(Array Int Int)"
 }
